@@ -6,7 +6,11 @@ CFG = {
     # one case = 256 ACCESS calls on the real handler; quick 80 cases = 20 480 points,
     # thorough: cases 0..2559 enumerate all 655 360 class points once, the rest are random
     "streams": [S("C12", "drive_auth", 80, 2700)],
-    "rule": "ACCESS calls through HandleCall (AUTH_SYS with squash none, or AUTH_NONE) on an object whose backend mode "
+    "rule": "ACCESS calls through HandleCall on exports with Squash none (45%), root (35%) and all (20%): the RAW AUTH_SYS credential is sent (uid 0, "
+            "gid 0 and zeros among the aux gids frequent; or AUTH_NONE) and the server derives the effective identity; the oracle recomputes it "
+            "with the squash table and judges by the EFFECTIVE identity. Under squashing the object's owner/group are chosen relative to the "
+            "effective identity, and wherever the class leaves a choice they are ids only the raw credential has (object gid 0 for a squashed "
+            "gid 0, owner uid 0 for a squashed root) or only the effective one has (gid 65534). Object backend mode "
             "(any 32-bit os.FileMode), owner and group are planted per point; a point = (branch of the class selection, 9 "
             "permission bits, directory bit, read-only export, 6 mask bits) made concrete with boundary/random 32-bit ids, "
             "auxiliary gid lists of length 0-16, extra mode bits and extra mask bits; 8% of the points are fully random. "
